@@ -19,7 +19,7 @@ Post(p) ==
     /\ orphans' = ToSet(p.orphans)
     /\ {<<i, reqs'[i]>> : i \in DOMAIN reqs'} = ToSet(p.reqs)
     /\ srv' = ToSet(p.srv)
-    /\ \A r \in Reqs : st'[r] = p.st[r] /\ rid'[r] = p.rid[r] /\ got'[r] = ToSet(p.got[r]) /\ errs'[r] = p.errs[r]
+    /\ \A r \in Reqs : st'[r] = p.st[r] /\ ph'[r] = p.ph[r] /\ rid'[r] = p.rid[r] /\ got'[r] = ToSet(p.got[r]) /\ errs'[r] = p.errs[r]
     /\ \A r \in Reqs : pages'[r] = p.pages[r] /\ cperr'[r] = p.cperr[r]
     /\ {<<i, cps'[i]>> : i \in DOMAIN cps'} = ToSet(p.cps)
     /\ defunct' = p.defunct
@@ -35,6 +35,8 @@ TraceNext ==
     /\ LET e == Tr[l] IN
        /\ \/ e.e = "Borrow"      /\ Borrow(e.r)
           \/ e.e = "Send"        /\ Send(e.r)
+          \/ e.e = "Push"        /\ Push(e.r)
+          \/ e.e = "TimeoutStale" /\ TimeoutStale(e.r)
           \/ e.e = "Respond"     /\ Respond(e.id, e.q)
           \/ e.e = "Page"        /\ RespondPage(e.id, e.q, e.last)
           \/ e.e = "Timeout"     /\ Timeout(e.r)
